@@ -61,6 +61,17 @@ func runC16(c *Ctx) {
 		descr = append(descr, fmt.Sprintf("%s/%s: %s {%s}", p.Name, p.Transport, planString(p, len(p.Pkts)), strings.Join(notes, "; ")))
 	}
 	tw.Tuns = StartTunnels(c, tw.Plans)
+	for _, t := range tw.Tuns {
+		for _, h := range t.Hosts {
+			// the host may hang up (after its banner, or with a reset) before the client closes
+			switch c.T.Weighted(4, 1, 1) {
+			case 1:
+				h.CloseAfterScript = true
+			case 2:
+				h.ResetAfter = c.T.Choose(len(h.Script) + 1)
+			}
+		}
+	}
 	RunTunnels(c, tw.Tuns, 5000)
 	npk := 0
 	for _, t := range tw.Tuns {
